@@ -226,3 +226,21 @@ impl<W, R, T> ManagedXError<W, R, T> {
 }
 
 pub type XResult<I, W, R, T> = RuntimeResult<Result<I, Rc<ManagedXError<W, R, T>>>>;
+
+#[cfg(xray_verif)]
+impl<W, R, T> XValue<W, R, T> {
+    pub(crate) fn verif_kind_payload_dyn(&self) -> (&'static str, usize) {
+        match self {
+            Self::Int(LazyBigint::Short(_)) => ("int", 0),
+            Self::Int(LazyBigint::Long(b)) => ("bigint", ((b.bits() + 7) / 8) as usize),
+            Self::Float(_) => ("float", 0),
+            Self::String(s) => ("str", s.bytes()),
+            Self::Bool(_) => ("bool", 0),
+            Self::Function(XFunction::Native(_)) => ("nfn", 0),
+            Self::Function(XFunction::UserFunction { .. }) => ("ufn", 0),
+            Self::StructInstance(items) => ("struct", items.len() * size_of::<usize>()),
+            Self::UnionInstance(_) => ("union", 0),
+            Self::Native(n) => ("native", n.verif_payload()),
+        }
+    }
+}
